@@ -11,7 +11,7 @@ def frag(name, anchor, rewrites=None, **kw):
 
 
 def G(name, harness, fns, expect, unwind=10, timeout=1200, defines=()):
-    return dict(name=name, harness=harness, enforce=[], dfcc=False, functions=fns, expect=expect, props=['C11'], timeout=timeout, unwind=unwind, defines=list(defines), defines_tier={'quick': ['VX_K=3'], 'thorough': ['VX_K=4']},
+    return dict(name=name, harness=harness, enforce=[], dfcc=False, functions=fns, expect=expect, props=['C11'], timeout=timeout, unwind=unwind, defines=list(defines), replay=dict(driver='replay.cpp', case=name, vars=[]), defines_tier={'quick': ['VX_K=3'], 'thorough': ['VX_K=4']},
                 bounded='heap capacity 7 (buffer of 8), sequences of <= 3 pushes followed by <= 3 pops (quick) / 4+4 (thorough), priorities symbolic (equal priorities allowed); single thread')
 
 
@@ -38,6 +38,7 @@ UNIT = dict(
     ],
     cxx=['shim.cpp'], c=['contracts.c'], cxxflags=['-Dconstexpr=', '-Dnoexcept=', '-Dexplicit=', '-I/verif/units/bits'],
     sabotage=[
+        dict(name='heapify_pop_one_range_check', quick=True, target='heapify_after_pop', lit='nChild < nCapacity; nChild *= 2 ) {', to='nChild + 1 < nCapacity; nChild *= 2 ) {', count=1, groups=['mixed_cap6'], expect_fail=r'C11\.mixed'),
         dict(name='pop_releases_heap_lock_early', quick=True, target='pop', re=r'refBottom\.lock\(\);\s*m_Lock\.unlock\(\);', to='m_Lock.unlock(); refBottom.lock();', count=1, groups=['push_pop_seq'], expect_fail=r'C11\.locks: the slot handed out'),
         dict(name='heapify_pop_wrong_child', target='heapify_after_pop', lit='cmp( *refRight.m_pVal, *pChild->m_pVal ) > 0', to='cmp( *refRight.m_pVal, *pChild->m_pVal ) < 0', count=1, groups=['push_pop_seq'], expect_fail=r'C11\.seq: items come out'),
         dict(name='push_capacity_off_by_one', target='push', lit='if ( m_ItemCounter.value() >= capacity()) {', to='if ( m_ItemCounter.value() + 1 >= capacity()) {', count=1, groups=['push_full'], expect_fail=r'C11\.push_full'),
@@ -54,5 +55,13 @@ UNIT = dict(
     groups=[
         G('push_pop_seq', 'h_push_pop_seq', ['MSPriorityQueue::push', 'pop', 'heapify_after_push', 'heapify_after_pop', 'bit_reverse_counter::inc/dec'], [r'C11\.seq', r'C11\.locks']),
         G('push_full', 'h_push_full', ['MSPriorityQueue::push'], [r'C11\.push_full']),
+        dict(G('mixed_cap6', 'h_mixed', ['MSPriorityQueue::push', 'pop', 'heapify_after_push', 'heapify_after_pop', 'bit_reverse_counter::inc/dec'], [r'C11\.mixed'], defines=['VX_HCAP=7', 'VX_FIXED_PATTERN'], timeout=1800, unwind=5), unwindset=dict({'h_mixed.%d' % i: 12 for i in range(8)}, **{'vx_lk.0': 12}),
+             bounded='heap array of 7 slots (capacity 6, the last slot a left child without a sibling): filled, then pop, push, pop, pop; priorities symbolic; single thread'),
+        dict(G('mixed_cap6_free', 'h_mixed', ['MSPriorityQueue::push', 'pop', 'heapify_after_push', 'heapify_after_pop', 'bit_reverse_counter::inc/dec'], [r'C11\.mixed'], defines=['VX_HCAP=7'], timeout=7200, unwind=5), tier='thorough', unwindset=dict({'h_mixed.%d' % i: 12 for i in range(8)}, **{'vx_lk.0': 12}),
+             bounded='heap array of 7 slots (capacity 6): filled, then any 4 operations; priorities symbolic; single thread'),
+        dict(G('mixed_cap7', 'h_mixed', ['MSPriorityQueue::push', 'pop', 'heapify_after_push', 'heapify_after_pop', 'bit_reverse_counter::inc/dec'], [r'C11\.mixed'], defines=['VX_HCAP=8'], timeout=7200, unwind=5), tier='thorough', unwindset=dict({'h_mixed.%d' % i: 13 for i in range(8)}, **{'vx_lk.0': 13}),
+             bounded='heap array of 8 slots (capacity 7): filled, then any 4 operations; priorities symbolic; single thread'),
+        dict(G('fill_cap5_any_size', 'h_fill_any_size', ['MSPriorityQueue::push', 'bit_reverse_counter::inc'], [r'C11\.slot_in_array_any_size'], defines=['VX_HCAP=6', 'VX_NONFIT']),
+             bounded='heap array of 6 slots (capacity 5): filled once'),
     ],
 )
